@@ -282,6 +282,12 @@ func (r *run) answerFor(req *dns.Msg, key string, raw, aux, id int64) *dns.Msg {
 		if aux != noAux && !viaSig {
 			min = uint32(aux)
 		}
+		if aux == noAux && raw < floorS && id%3 == 0 && r.target(r.in.Chain[0]) != "" && r.in.Chain[len(r.in.Chain)-1] == key {
+			// a bare denial: no SOA, no proof (an unsigned zone whose server omits the SOA). Its lifetime is
+			// the floor either way (dnsutil.CalculateCacheTTL of an empty message), so the oracle is unchanged;
+			// only used where the name ends an alias chain, so its lineage has no record to ride on
+			break
+		}
 		m.Ns = []dns.RR{&dns.SOA{Hdr: dns.RR_Header{Name: "ex.", Rrtype: dns.TypeSOA, Class: dns.ClassINET, Ttl: ttl},
 			Ns: "ns.ex.", Mbox: "h.ex.", Serial: uint32(id), Refresh: 60, Retry: 60, Expire: 60, Minttl: min}}
 		if viaSig {
